@@ -8,10 +8,10 @@ for f in sorted(glob.glob(os.path.join(os.path.dirname(os.path.abspath(__file__)
     for l in m.get('checks_run',[]):
         mm=re.search(r'signature: (\S+)', l)
         if mm and mm.group(1) not in sigs: sigs.append(mm.group(1))
-    det='yes' if m.get('detected') else ('no (judged not a violation)' if m.get('judged') else '**NO**')
+    det='yes' if m.get('detected') else ('no (judged not a violation)' if m.get('judged') else ('no (out of reach: '+m['out_of_reach'].split(':')[0]+')' if m.get('out_of_reach') else '**NO**'))
     summ=m.get('summary','').replace('|','/').replace('\n',' ')
     if len(summ)>170: summ=summ[:167]+'...'
-    first=m.get('first_result','')+(' JUDGED: '+m['judged'] if m.get('judged') else '')
+    first=m.get('first_result','')+(' JUDGED: '+m['judged'] if m.get('judged') else '')+(' OUT OF REACH: '+m['out_of_reach'] if m.get('out_of_reach') else '')
     rows.append(f"| {name} | {summ} | {det} | {', '.join('`'+s+'`' for s in sigs[:3])} | {first} |")
 print("| seed | change | caught by its property's quick check | signatures | note |")
 print("|---|---|---|---|---|")
